@@ -11,7 +11,10 @@ impl Operation {
     pub fn negate(val: Val) -> Result<Val> {
         use Val::*;
         match val {
-            Integer(n) => Ok(Integer(-n)),
+            Integer(n) => match n.checked_neg() {
+                Some(i) => Ok(Integer(i)),
+                None => Err(error!(Overflow)),
+            },
             Single(n) => Ok(Single(-n)),
             Double(n) => Ok(Double(-n)),
             String(_) | Return(_) | Next(_) => Err(error!(TypeMismatch)),
@@ -105,7 +108,8 @@ impl Operation {
         let rhs = i16::try_from(rhs)?;
         match lhs.checked_div(rhs) {
             Some(n) => Ok(Val::Integer(n)),
-            None => Err(error!(DivisionByZero)),
+            None if rhs == 0 => Err(error!(DivisionByZero)),
+            None => Err(error!(Overflow)),
         }
     }
 
@@ -114,7 +118,8 @@ impl Operation {
         let rhs = i16::try_from(rhs)?;
         match lhs.checked_rem(rhs) {
             Some(n) => Ok(Val::Integer(n)),
-            None => Err(error!(DivisionByZero)),
+            None if rhs == 0 => Err(error!(DivisionByZero)),
+            None => Ok(Val::Integer(0)),
         }
     }
 
